@@ -38,6 +38,10 @@ add("F8", ["C03"], 'C03.belief|site|compiler::mirgen::Context::eval_destination_
 add("F8", ["C03"], 'C03.belief|site|compiler::mirgen::Context::eval_expr_as_address|unimplemented|unimplemented!("Array element assignment is not implemented yet.")', "`a[0] = 3.0`: third abort for the same construct in mirgen")
 add("F23", ["C03"], "C03.belief|site|<mir::StateType as std::convert::From<interner::TypeNodeId>>::from|todo|todo!()", "`self` in a function whose return type is a string, a sum type, ...: todo!() in StateType::from panics the compiler on both back ends (findings/repro/F23_*.mmm)")
 
+# ---- C13 -------------------------------------------------------------------------------------------------
+add("F10", ["C13"], "C13.trivia|loss|compiler::parser::preparser::preparse|clear", "preparse discards trivia that precedes the first syntax token when it ends in a line break (pending_trivia.clear()); asserted by the repo's own unit test test_preparse_leading_trivia, so it cannot be repaired without editing tests")
+add("F8", ["C04"], 'C04.belief|site|compiler::typing::InferContext::infer_type|unimplemented|unimplemented!("Assignment to array is not implemented yet.")', "`a[0] = 3.0`: unimplemented! inside the type checker (a syntactically valid text crashes the front end)")
+
 
 def main():
     extra = os.path.join(HERE, "tools", "findings_more.py")
